@@ -746,7 +746,7 @@ CONSTS = [
         "NICE_COMPONENT_STATE_READY", "NICE_COMPONENT_STATE_FAILED", "NICE_COMPONENT_STATE_LAST",
     ]),
     ("agent/stream.h", [  # C18 (SDP credentials / default candidates)
-        "NICE_STREAM_MAX_UFRAG", "NICE_STREAM_MAX_PWD", "NICE_COMPONENT_TYPE_RTP", "NICE_COMPONENT_TYPE_RTCP",
+        "NICE_STREAM_MAX_UFRAG", "NICE_STREAM_MAX_PWD", "NICE_STREAM_DEF_UFRAG", "NICE_STREAM_DEF_PWD", "NICE_COMPONENT_TYPE_RTP", "NICE_COMPONENT_TYPE_RTCP",
     ]),
     ("agent/pseudotcp.h", [
         "PSEUDO_TCP_LISTEN", "PSEUDO_TCP_SYN_SENT", "PSEUDO_TCP_SYN_RECEIVED", "PSEUDO_TCP_ESTABLISHED",
@@ -1080,6 +1080,19 @@ def main():
             extract_stun.write_tables(f, report, sys.modules[__name__])
         except Unsupported as e:
             report["errors"].append("stun tables: %s" % e)
+        try:
+            txt = open(os.path.join(REPO, "random/random.c")).read()
+            m = re.search(r"const\s+gchar\s*\*\s*chars\s*=\s*((?:\s*\"[^\"]*\")+)\s*;", txt)
+            if not m:
+                raise Unsupported("alphabet of nice_rng_generate_bytes_print not found in random/random.c")
+            alpha = "".join(re.findall(r"\"([^\"]*)\"", m.group(1)))
+            if "\\" in alpha:
+                raise Unsupported("escape sequence in the credential alphabet")
+            f.write("/-- alphabet of nice_rng_generate_bytes_print (random/random.c) -/\n")
+            f.write(f"def rng_print_chars : String := \"{alpha}\"\n\n")
+            report["tables"]["rng_print_chars"] = len(alpha)
+        except Unsupported as e:
+            report["errors"].append(str(e))
         f.write("end Nice.Gen\n")
     json.dump(report, open(os.path.join(BUILD, "extract_report.json"), "w"), indent=1)
     if report["errors"]:
